@@ -208,18 +208,29 @@ func TestC18(t *testing.T) {
 	// the configuration file: the same predicate whenever a cmd sensor or fan is declared
 	cfgPath := filepath.Join(dir, "fan2go.yaml")
 	_ = os.WriteFile(cfgPath, []byte("# c18\n"), 0o600)
-	mk := func(cmdSensor, cmdFan bool) {
+	// variant: 0 no cmd entry; 1/2 cmd sensor first/last; 3/4 cmd fan first/last
+	mk := func(variant int) {
+		fileSensor := configuration.SensorConfig{ID: "s", File: &configuration.FileSensorConfig{Path: "/x"}}
+		fileSensor2 := configuration.SensorConfig{ID: "s2", File: &configuration.FileSensorConfig{Path: "/x2"}}
+		cmdSensor := configuration.SensorConfig{ID: "cs", Cmd: &configuration.CmdSensorConfig{Exec: "/bin/true"}}
+		fileFan := configuration.FanConfig{ID: "f", Curve: "c", File: &configuration.FileFanConfig{Path: "/y"}}
+		fileFan2 := configuration.FanConfig{ID: "f2", Curve: "c", File: &configuration.FileFanConfig{Path: "/y2"}}
+		cmdFan := configuration.FanConfig{ID: "cf", Curve: "c", Cmd: &configuration.CmdFanConfig{
+			SetPwm: &configuration.ExecConfig{Exec: "/bin/true"}, GetPwm: &configuration.ExecConfig{Exec: "/bin/true"}}}
 		c := configuration.Configuration{
-			Sensors: []configuration.SensorConfig{{ID: "s", File: &configuration.FileSensorConfig{Path: "/x"}}},
+			Sensors: []configuration.SensorConfig{fileSensor, fileSensor2},
 			Curves:  []configuration.CurveConfig{{ID: "c", Linear: &configuration.LinearCurveConfig{Sensor: "s", Min: 1, Max: 2}}},
-			Fans:    []configuration.FanConfig{{ID: "f", Curve: "c", File: &configuration.FileFanConfig{Path: "/y"}}},
+			Fans:    []configuration.FanConfig{fileFan, fileFan2},
 		}
-		if cmdSensor {
-			c.Sensors = append(c.Sensors, configuration.SensorConfig{ID: "cs", Cmd: &configuration.CmdSensorConfig{Exec: "/bin/true"}})
-		}
-		if cmdFan {
-			c.Fans = append(c.Fans, configuration.FanConfig{ID: "cf", Curve: "c", Cmd: &configuration.CmdFanConfig{
-				SetPwm: &configuration.ExecConfig{Exec: "/bin/true"}, GetPwm: &configuration.ExecConfig{Exec: "/bin/true"}}})
+		switch variant {
+		case 1:
+			c.Sensors = []configuration.SensorConfig{cmdSensor, fileSensor, fileSensor2}
+		case 2:
+			c.Sensors = []configuration.SensorConfig{fileSensor, fileSensor2, cmdSensor}
+		case 3:
+			c.Fans = []configuration.FanConfig{cmdFan, fileFan, fileFan2}
+		case 4:
+			c.Fans = []configuration.FanConfig{fileFan, fileFan2, cmdFan}
 		}
 		configuration.CurrentConfig = c
 	}
@@ -233,13 +244,13 @@ func TestC18(t *testing.T) {
 				}
 				_ = os.Chown(cfgPath, uid, gid)
 				_ = os.Chmod(cfgPath, os.FileMode(mode))
-				for variant := 0; variant < 3; variant++ {
-					mk(variant == 1, variant == 2)
+				for variant := 0; variant < 5; variant++ {
+					mk(variant)
 					err := configuration.Validate(cfgPath)
 					want := variant == 0 || c18Allowed(uid, gid, mode)
 					st.CaseH(fmt.Sprintf("cfg-%d-%d-%o-%d", uid, gid, mode, variant), nil, true, "config-file")
 					if (err == nil) != want {
-						v := []sim.Violation{{Key: "config-file-permission-verdict", Msg: fmt.Sprintf("config uid %d gid %d mode %04o, cmd sensor %v cmd fan %v: Validate returned %v", uid, gid, mode, variant == 1, variant == 2, err)}}
+						v := []sim.Violation{{Key: "config-file-permission-verdict", Msg: fmt.Sprintf("config uid %d gid %d mode %04o, variant %d (0 none, 1/2 cmd sensor first/last, 3/4 cmd fan first/last): Validate returned %v", uid, gid, mode, variant, err)}}
 						if fail := st.Judge(v); len(fail) > 0 {
 							st.SaveReplay("TestC18", c18Point{Uid: uid, Gid: gid, Mode: mode, Via: "config"}, fail)
 							t.Fatalf("C18: %v", fail)
